@@ -175,6 +175,12 @@ func (msg MsgInitiateTokenWithdrawal) Validate(ac address.Codec) error {
 		return ErrInvalidAmount
 	}
 
+	// the l1 withdrawal leaf format carries the amount as uint64, so a larger
+	// withdrawal could never be finalized on l1
+	if !msg.Amount.Amount.IsUint64() {
+		return ErrInvalidAmount.Wrap("amount exceeds uint64")
+	}
+
 	return nil
 }
 
